@@ -3,7 +3,7 @@ from ..core import AnalysisError, term_s, subterms
 from . import srv, conn
 from .conn import leaves, ret_kind
 from .srv import S, CC, calls, state_test, eventset_value, EV_IN, EV_OUT
-from .util import result_outcome, const_of, is_call, last_seg, look, norm, truth
+from .util import result_outcome, payload_of, option_is_some, const_of, is_call, last_seg, look, norm, truth
 
 EXPLANATION = (
     "Static decision of the one mechanism the server has for liveness: the epoll interest of a "
@@ -36,6 +36,8 @@ def run(ctx):
     from .c06 import paths as writer_paths, fifo
     ctx.guarded("R08.5", "writer", lambda: writer_paths(ctx, "R08.5"))
     ctx.guarded("R08.5", "fifo", lambda: fifo(ctx, "R08.5", "response_queue", {"push_back", "pop_front", "clear"}))
+    ctx.rule("R08.6", "read() hands over every request the parser completed: after a successful try_read it returns only once pop_parsed_request() answered None (bytes already taken off the socket raise no further readiness event)")
+    ctx.guarded("R08.6", "drain-all", lambda: drain_all(ctx))
     ctx.rule("R08.4", "one try_read / try_write per readiness notification (a second write on a full socket would report EAGAIN and close a healthy connection); served streams are non-blocking")
     from .c09 import single_io, nonblocking
     ctx.guarded("R08.4", "single-io", lambda: single_io(ctx, "R08.4"))
@@ -119,6 +121,40 @@ def sets_state_on_err(ctx, w):
             if any(e[0] == "assign" and e[3] == "(*_1).state" for e in lf.events):
                 return True
     return False
+
+
+def drain_all(ctx):
+    fn, lv = leaves(ctx, CC + "read")
+    n = 0
+    for lf in lv:
+        rk = ret_kind(lf)
+        if rk is None or rk[0] != "Ok":
+            continue
+        tr = [e for e in lf.events if e[0] == "call" and e[3] == conn.TRY_READ]
+        if len(tr) != 1 or result_outcome(lf, tr[0][4]) != "ok":
+            continue
+        n += 1
+        drained = False
+        for (t, c, _b) in lf.conds:
+            if t[0] == "discr" and is_call(look(t[1]), conn.P + "pop_parsed_request") and option_is_some(c) is False:
+                drained = True
+        ctx.ob("R08.6", "read|queue-drained", drained, "a successful read returns only after pop_parsed_request() returned None", fn.loc(lf.bb))
+    # in the loop, every popped request is pushed onto the vector that is returned
+    m = 0
+    for lf in lv:
+        if lf.kind != "loop":
+            continue
+        tr = [e for e in lf.events if e[0] == "call" and e[3] == conn.TRY_READ]
+        if len(tr) != 1 or result_outcome(lf, tr[0][4]) != "ok":
+            continue
+        pops = [e for e in lf.events if e[0] == "call" and e[3] == conn.P + "pop_parsed_request"]
+        push = [e for e in lf.events if e[0] == "call" and last_seg(e[3]) in ("push", "push_back") and "Vec" in e[3]]
+        if not pops:
+            continue
+        m += 1
+        ok = len(push) == 1 and payload_of(push[0][4][2][1]) is not None and norm(payload_of(push[0][4][2][1])) == norm(pops[-1][4])
+        ctx.ob("R08.6", "read|each-popped-pushed", ok, "each request popped after a successful read is pushed onto the vector read() returns", fn.loc(lf.bb))
+    ctx.ob("R08.6", "floor", n >= 1 and m >= 1, "%d returning path(s) and %d loop iteration path(s) after a successful try_read (floor 1 each)" % (n, m), fn.loc(0))
 
 
 def same_conn(a, b):
